@@ -86,7 +86,7 @@ def _project(f, path, want_fcsdata, warn, original):
         try:
             with warnings.catch_warnings():
                 warnings.simplefilter('ignore')
-                d = FlowCal.io.FCSData(path)
+                d = FlowCal.io.FCSData(loadform.arg(path, len(original) + 3))     # (another way of handing the file over)
             same = (d.shape == f.data.shape and d.dtype == f.data.dtype and
                     np.asarray(d).tobytes() == np.asarray(f.data).tobytes())
             o['fcsdata'] = 'same' if same else 'differs'
